@@ -552,10 +552,12 @@ impl Range {
                 max,
                 scale,
                 offset,
-            } => Self::from_min_max(
-                *min as f64 * *scale + *offset,
-                *max as f64 * *scale + *offset,
-            ),
+            } => {
+                // A negative scale reverses the order of the scaled limits
+                let a = *min as f64 * *scale + *offset;
+                let b = *max as f64 * *scale + *offset;
+                Self::from_min_max(a.min(b), a.max(b))
+            }
             RecordDataType::Integer { min, max } => Self::from_min_max(*min as f64, *max as f64),
         }
     }
